@@ -1,4 +1,5 @@
 """C01 Canonicity: hash-consing discipline"""
+import eptr
 import elin
 import eswap
 import evlm
@@ -71,4 +72,9 @@ def run(ctx):
     ctx.floor("E-LIN.rcguard", "try_remove_node bodies", nrg, 2)
     nps = ecanon.check_ptr_split(ctx, F)
     ctx.floor("E-CANON.ptrsplit", "is_inner() branches of the pointer-based manager", nps, 6)
+    ctx.explain("E-PTR.tagbits: the tag-bit arithmetic of the pointer-based manager's edges (masks and is_inner / "
+                "all_untagged_ptr / retag_ptr / tag / node_id) is interpreted with one tag bit, exhaustively over the low address "
+                "bits: retagging changes only the tag, untagging clears exactly the tag bits, is_inner reads the bit above them.")
+    npt = eptr.run(ctx, F)
+    ctx.floor("E-PTR.tagbits", "interpreted mask / accessor situations", npt, 11)
     ctx.not_decided = "the 'iff' over histories (gc, slot reuse, reordering); handle equality across managers"
